@@ -9,12 +9,12 @@ import calendar
 import datetime as dt
 import re
 
-from lib import common, calcorr, periodcorr
+from lib import common, calcorr, periodcorr, zhcorr
 from lib.calcorr import fmt_dt, ref_fields, guarded, at
 
 PROP = 'C08'
 LEVEL = 'proof'
-PROPS_MODULES = ['RTV.Props.C08']
+PROPS_MODULES = ['RTV.Props.C08', 'RTV.Props.C08Zh']
 GEN = []
 REQUIRED_THEOREMS = ['this_in_iso_week', 'next_is_following_week', 'last_is_preceding_week', 'today_is_reference_date',
                      'tomorrow_is_next_day', 'yesterday_is_previous_day', 'n_days_ago', 'in_n_days', 'n_weeks_is_7n_days',
@@ -23,7 +23,10 @@ REQUIRED_THEOREMS = ['this_in_iso_week', 'next_is_following_week', 'last_is_prec
                      'hms_ago_later', 'hms_units', 'week_prefix_period', 'weekend_is_saturday_to_monday',
                      'weekend_timex_fixed', 'weekend_timex_prefix_partial', 'weekend_timex_prefix_regression',
                      'month_prefix_period', 'year_prefix_period', 'year_to_date', 'month_to_date',
-                     'month_to_date_prefix', 'month_to_date_prefix_regression', 'rest_of_week', 'rest_of_month', 'rest_of_year', 'rest_of_witnesses']
+                     'month_to_date_prefix', 'month_to_date_prefix_regression', 'rest_of_week', 'rest_of_month', 'rest_of_year', 'rest_of_witnesses',
+                     'zh_special_day', 'zh_next_weekday', 'zh_n_days_ago', 'zh_n_weeks_is_7n_days', 'zh_week_period', 'zh_month_period',
+                     'zh_year_period', 'zh_this_year_is_year_to_date', 'zh_months_years_ignore_number', 'zh_simple_cases_definite_ok',
+                     'zh_past_n_days_weeks_ok']
 RULE = ('unit: every ordinal of 1950..2090 + stride 97 over 0001..9999 (thorough: every ordinal) for ord2ymd/weekday/'
         'isocalendar; datedelta shim x 22 deltas on boundary days + all days of 2019-2021; this/next/last on every day of '
         '1950..2090 x dow 0..7; get_date_result D/W/MON/Y x N x both directions; parse_implicit_date and '
@@ -544,5 +547,6 @@ def correspond(ctx):
     unit_agolater(ctx, bdays + (calcorr.all_days(1996, 2024) if ctx.thorough else dense))
     r = ctx.rng('unit-parsers')
     unit_parsers(ctx, bdays + dense + (calcorr.all_days() if ctx.thorough else calcorr.seeded_days(r, 1500)))
+    zhcorr.run(ctx)               # the Chinese parsers (RTV.Model.ZhDateTime; theorems in Props/C08Zh): unit + zh-cn pipeline
     periodcorr.unit(ctx)          # the other computations of BaseDatePeriodParser (RTV.Model.Periods; theorems in Props/C10Periods)
     pipeline(ctx)
